@@ -10,7 +10,10 @@ TECHNIQUE = ('visitor dispatch resolution along the MRO; path-sensitive push/pop
              'interpretation of the *source* of the whole definedness analysis (ControlFlowAnalysis handlers, ControlFlow graph construction, initialize / reaching_definitions / map_one, '
              'check_definitions) by the checker\'s own evaluator (sa/rules/sC21.MiniPy: nothing of the repository is imported or executed) on a finite family of abstract programs built from '
              'the repository\'s node classes, compared with the collecting semantics of the same programs computed by the checker from the language reference; '
-             'path-sensitive partial evaluation of the NameNode emitters under the two flag valuations bound / maybe-unbound')
+             'path-sensitive partial evaluation of the NameNode emitters under the two flag valuations bound / maybe-unbound; '
+             'interpretation of PostParse.visit_ExceptClauseNode (same evaluator) on an abstract `except E as x` clause, the tree it returns lifted to a statement language and its '
+             'collecting semantics compared with the language reference for every way a clause suite can end; writer/reader agreement on the TryFinallyStatNode.handle_error_case '
+             'flag (construction sites x node classes the flow analysis records as binding, class defaults, partial evaluation of the generator under the flag)')
 DECIDES = ('C21-ABS: every instantiated node class below a ControlFlowAnalysis handler that only raises (visit_LoopNode, visit_AssignmentNode) dispatches to a specific handler. '
            'C21-V3: in every ControlFlowAnalysis method the pushes/pops on self.flow.loops, self.flow.exceptions, loops[-1].exceptions, self.stack and the in_try_block counter '
            'balance on every normal path (helpers with a uniform effect are summarised at their call sites), and visitor attributes saved to a local / swapped / pushed as a tuple '
@@ -30,7 +33,19 @@ DECIDES = ('C21-ABS: every instantiated node class below a ControlFlowAnalysis h
            'cf_maybe_null or cf_is_null is set; the name can be bound => cf_is_null is not set.  Over-approximation (more run-time checks than needed) is never reported. '
            'C21-NULLSAFE: in every ExprNodes method that consults cf_maybe_null (generate_gotref, NameNode.generate_assignment_code / generate_deletion_code / generate_result_code) a '
            'NULL-intolerant reference-count primitive (decref, decref_set, decref_clear, gotref) is applied to the variable of a maybe-unbound name only under path conditions under which a '
-           'bound name gets it too, or after an emitted unbound check; path conditions that assume an entry kind ControlFlow.is_tracked does not track (C globals ...) are outside the rule.')
+           'bound name gets it too, or after an emitted unbound check; path conditions that assume an entry kind ControlFlow.is_tracked does not track (C globals ...) are outside the rule. '
+           'C21-CFG-NESTFIN: the C21-CFG comparison on 49 further programs in which a return / break / continue leaves through nested finally clauses: `return` through two finally clauses '
+           '(directly nested, with a try/except body or handler or a loop in between), every jump kind through one finally clause from inside a try/except statement, inner clauses that '
+           'are inert / may raise / bind / unbind (also under an `if`) / read, outer clauses that read / read and unbind; the inner try body never falls through, so the chain '
+           'jump -> inner finally -> outer finally is the only route of the unbound state. '
+           'C21-CFG-EXCAS: the C21-CFG comparison on 40 programs with `except E as x` clauses; each clause is lowered by the repository\'s own PostParse.visit_ExceptClauseNode '
+           '(interpreted) before the flow analysis runs; the reference binds x on entry of the clause and unbinds it on every exit. '
+           'C21-EXCAS: for 24 clause suites (6 ways to end x 4 things done to x) the tree PostParse.visit_ExceptClauseNode builds leaves x unbound on every exit of the clause (normal, '
+           'exception, break, continue, return) and its implicit `del` never raises; the try/finally it builds is read with its effective handle_error_case (keyword, later attribute '
+           'store or class default). '
+           'C21-FINERR: every construction site of a TryFinallyStatNode (sub)class in Cython/Compiler whose handle_error_case is explicitly off builds a finally clause made only of node '
+           'classes whose ControlFlowAnalysis handler records no (un)binding and of no foreign subtree; the class defaults are on; with the flag on, generate_execution_code does not '
+           'assign code.error_label between taking the new labels and generating the body.')
 NOT_DECIDED = ('the reaching-definitions fixpoint and the shape of the control-flow graph each handler builds are decided only through the flags they yield on the C21-CFG family: programs '
                'outside it (deeper nesting than two compound statements, more than one variable, with statements, comprehension scopes, closures / generators, parallel blocks, class bodies) are '
                'not decided; scenarios with a `del` inside a try body are evaluated by the pending part C21-CFG-DELTRY only (genuine defect FINDING_1 of session s4-G5). '
@@ -38,11 +53,17 @@ NOT_DECIDED = ('the reaching-definitions fixpoint and the shape of the control-f
                '(DivNode, SequenceNode, YieldExprNode, BoolBinopResultNode, IfClauseNode, ExceptClauseNode, MatchCaseNode, StarExceptTestSetupNode) are correctly handled by the '
                'generic handler or by their parent\'s handler, so label use is not a necessary condition; only the abstract-handler form (C21-ABS) is exact. '
                'Emission sites that assume a non-NULL variable (decref vs xdecref) are not checked (the C-global branch is legitimately unguarded). '
-               'C21-INFER is a necessary channel condition only: it does not decide that the inferer uses the fact correctly.')
+               'C21-INFER is a necessary channel condition only: it does not decide that the inferer uses the fact correctly. '
+               'Jumps through MORE nested finally clauses (`return` through three, `break` / `continue` through two) are evaluated by the pending part C21-CFG-DEEPFIN only (104 programs; '
+               'genuine defect FINDING_1 of session H3: the handlers link only one level). C21-EXCAS / C21-FINERR take the meaning of handle_error_case=False (clause not run when the body '
+               'raises) from the generator\'s flag test; that the generated C of a try/finally really runs the clause on every other exit is C22\'s subject. A finally clause that is produced '
+               'by a helper call at a flag-off construction site is not followed (ANALYSIS-ERROR).')
 ASSUMPTIONS = ['C21-CFG: TreeVisitor dispatch is replaced by its contract (visit_<Class> of the first class of the node\'s MRO with a handler; visitchildren walks child_attrs in order); '
                'symbol table entries are local Python-object variables (is_local, not in a closure); every condition, iteration count and raising point of the abstract programs is nondeterministic',
                'definedness facts can reach the type inferer only through cf_maybe_null / cf_is_null / Uninitialized or an attribute of a symbol-table entry that FlowControl writes under a test on one of them',
-               'is_null implies maybe_null for every node (established by C21-LAT), so the flag combination (maybe_null=False, is_null=True) is not evaluated in C21-DEF']
+               'is_null implies maybe_null for every node (established by C21-LAT), so the flag combination (maybe_null=False, is_null=True) is not evaluated in C21-DEF',
+               'C21-CFG-EXCAS: between PostParse and the flow analysis two pipeline steps are modelled, not interpreted: TryFinallyStatNode.analyse_declarations deep-copies finally_clause into '
+               'finally_except_clause, and analyse_declarations resolves each NameNode to the local entry of its name']
 EXEMPT = {}
 
 # Single-edit variants tried on a scratch copy: (file, edit, rule/construct that reported it).  The unchanged tree already reports the two genuine
@@ -81,6 +102,13 @@ MUTATIONS = [
      'parents joined with &; check_definitions block walk: a deletion sets the statement bit; initialize: no Uninitialized bits at the entry point', 'C21-CFG'),
     ('Cython/Compiler/ExprNodes.py', 'generate_assignment_code: decref_set / xdecref_set swapped; generate_deletion_code: decref_clear for a maybe-unbound name; generate_gotref: condition inverted', 'C21-NULLSAFE'),
     ('Cython/Compiler/FlowControl.py', 'CONSERVATIVE edits (more maybe-unbound states, same behaviour): kill set ignored, if-clauses hung under the entry block, try-entry / finally-entry edge dropped', 'silent (by design)'),
+    # fifth round (session H3): patches in /verif/mutants/C21/{ret-*,tryfinally-*,descr-*,excas-*,with-*}
+    ('Cython/Compiler/FlowControl.py', 'SEED C21e and 7 neighbours: visit_ReturnStatNode loses / misroutes the edge inner finally -> outer finally (list instead of the shared iterator, restart of the '
+     'inner search, exit linked to the function exit or taken from the return block, handler stack walked outermost first, only the innermost handler inspected); ExceptionDescr without / with a wrong finally_exit', 'C21-CFG-NESTFIN (C21-CFG for the descriptor without exit)'),
+    ('Cython/Compiler/ParseTreeTransforms.py', 'SEED C21f and neighbours: the except-as wrapper built with handle_error_case=False (keyword / later attribute store), without the del, with a strict del, '
+     'as a plain statement list; WithTransform: a DelStatNode added to the flag-off finally clause', 'C21-EXCAS / C21-FINERR / C21-CFG-EXCAS'),
+    ('Cython/Compiler/Nodes.py', 'TryFinallyStatNode.handle_error_case default False; generate_execution_code tests the flag with the opposite polarity', 'C21-EXCAS + C21-FINERR / C21-FINERR'),
+    ('Cython/Compiler/FlowControl.py', 'visit_TryExceptStatNode no longer records the assignment of the except-as target', 'C21-CFG-EXCAS except-as:bound-missed'),
     # repairs of the two findings make the corresponding violation disappear (and it comes back when the repair is reverted)
     ('Cython/Compiler/ExprNodes.py', 'REPAIR generate_deletion_code: emit put_error_if_unbound also under `self.cf_is_null and not ignore_nonexisting`', 'C21-DEF silent'),
     ('Cython/Compiler/TypeInference.py', 'REPAIR inferred_types: append py_object_type when any reference has cf_maybe_null', 'C21-INFER silent'),
@@ -97,6 +125,10 @@ SILENT_EDITS = [   # behaviour-preserving, reported nothing new
     'visit_AssignmentExpressionNode: save to a local instead of the tuple swap',
     'ForFromStatNode: post-loop assignment moved into a helper method called under `if not from_range:`; guard written `pyrex_loop = not self.from_range; if not (not pyrex_loop or self.py_loopvar_node is None)`',
     'ForFromStatNode: in-loop assignment restructured (`item_node`, `if item_node is None: pass / else:`)',
+    # fifth round (mutants/C21/pres-*)
+    'visit_ReturnStatNode without the shared iterator (list of finally-carrying handlers, [0] and [1] linked explicitly); the search for the next outer finally clause in a helper; ExceptionDescr built with keywords',
+    'visit_ExceptClauseNode: wrapper in a local with an explicit handle_error_case=True; DelStatNode / TryFinallyStatNode used directly without StatListNode wrappers and an early return; construction in a helper method',
+    'WithTransform: exit statement and try/finally in locals, handle_error_case = False stored afterwards; generate_execution_code: `if flag: pass / else: redirect`',
 ]
 
 
